@@ -159,6 +159,19 @@ def check_sinks_c(rep, mod, V):
     if len(five) != 2:
         raise AnalysisBroken('setup_dynamic_header: expected the two 5-bit header fields HLIT and HDIST, found %d' % len(five))
     hdr = ['hdr5:' + x for x in five]
+    # the constants of the two range tests: RFC 1951 3.2.7 - HLIT = #lit/len codes - 257 in 0..29 (286 codes), HDIST = #distance codes - 1 in 0..29 (30 codes)
+    for which, hk in zip(('HLIT', 'HDIST'), hdr):
+        R.instance()
+        gds = kinds.get(hk, [])
+        acc = None
+        for gd in gds:
+            c = gd[3]
+            k = int(c.ops[1])
+            lim = k if c.extra['pred'] in ('ugt', 'sgt') else k - 1
+            acc = lim if acc is None else min(acc, lim)
+        R.check(acc is not None and acc <= 29, mod.where(g, gds[0][3]) if gds else mod.where(g, None), '%s values up to %s pass the range test; RFC 1951 allows at most 29 (%s)' %
+                (which, acc, '286 literal/length codes' if which == 'HLIT' else '30 distance codes: a 31st code length is then counted but the table builders run over 30 entries'),
+                key='R-GUARD-SINK-C|range-%s' % which, sample='%s <= %s accepted' % (which, acc))
     for callee, need in (('make_inflate_huff_code_dist', hdr + ['eob-or-end', 'set_codes']),
                          ('make_inflate_huff_code_lit_len', hdr + ['eob-or-end', 'set_codes', 'set_and_expand_lit_len_huffcode'])):
         sites = [i for i in g.all_insns() if i.op == 'call' and base_name(i.callee) == callee]
